@@ -189,13 +189,13 @@ class _RoundElimInstance(DefaultTransformVisitor):
         a concrete target).
 
         *e* must be a :data:`ContextUseSite` (op-typed expression)
-        that's been seen by :class:`ContextUseAnalysis`.  We don't
-        catch ``KeyError`` here: a node that should have a scope
-        but doesn't indicates a bug elsewhere (the node was
-        constructed without going through scope analysis), and
-        failing loudly is more useful than silently treating it
-        as ineligible."""
-        scope = self.ctx_use.find_scope_from_use(e)
+        that's been seen by :class:`ContextUseAnalysis`.  One kind of
+        operation is seen and recorded under no scope: one in the header
+        of a ``with``, which is evaluated exactly whatever surrounds it.
+        It rounds nothing, so there is nothing to eliminate: ineligible."""
+        scope = self.ctx_use.use_to_scope.get(e)
+        if scope is None:
+            return None
         if isinstance(scope.ctx, Context):
             return scope.ctx
         return self.outer_ctx
